@@ -1,4 +1,4 @@
-from numpy import array, arange, ndarray, append, maximum
+from numpy import array, arange, ndarray, append, maximum, isfinite
 from scipy.optimize import differential_evolution, fmin_l_bfgs_b
 from multiprocessing import Pool
 from inspect import isclass
@@ -161,6 +161,18 @@ class GpOptimiser:
                 \r>> 'new_y_err' argument of the 'add_evaluation' method must be
                 \r>> specified if the 'y_err' argument was specified when the
                 \r>> instance of GpOptimiser was initialised.
+                """
+            )
+
+        # (a NaN / infinite value - a failed objective - cannot be fitted; refused here, before
+        # the re-fit would estimate hyper-parameter bounds from it and leave them, not finite,
+        # on a kernel or mean *instance* which the following re-fits use again)
+        if not isfinite(new_y).all():
+            raise ValueError(
+                f"""\n
+                \r[ GpOptimiser error ]
+                \r>> 'new_y' argument of the 'add_evaluation' method must be
+                \r>> finite, but the value given was {new_y}.
                 """
             )
 
